@@ -1,6 +1,7 @@
 import fam_seq
 import fam_loctext
 import fam_region
+import fam_feat
 
 
 def lookup(prop):
@@ -10,4 +11,6 @@ def lookup(prop):
         return fam_loctext.run
     if prop in ("C08", "C09"):
         return fam_region.run
+    if prop == "C19":
+        return fam_feat.run
     return None
